@@ -31,11 +31,11 @@ def check(prog, ctx):
     ctx.rule('C17.f', 'vector-harmonic tables: every branch of VSH_Y_Component equals the closed-form coefficient of rhat*Y_lm; VSH_Psi_Component '
              'equals kappa times the Y coefficient with kappa=-l for lhat=l+1 and l+1 for lhat=l-1; zero outside the selection rules; the drivers '
              'sum over lhat in {l-1,l+1}, mhat in {m-1,m,m+1}, |mhat|<=lhat', 42)
-    signs(prog, ctx)
-    reldiff(prog, ctx)
-    dawson(prog, ctx)
-    compositions(prog, ctx)
-    vsh(prog, ctx)
+    ctx.sub('signs', signs, prog, ctx)
+    ctx.sub('reldiff', reldiff, prog, ctx)
+    ctx.sub('dawson', dawson, prog, ctx)
+    ctx.sub('compositions', compositions, prog, ctx)
+    ctx.sub('vsh', vsh, prog, ctx)
 
 
 def signs(prog, ctx):
